@@ -41,6 +41,11 @@ const EVT_STATUS_UPDATE: Token = Token(1);
 const EVT_HEALTH_CHECK: Token = Token(2);
 
 // Canned response to health check request
+/// Upper bound on the number of batches processed per call of `process_events`, so that the
+/// caller regains control (and can observe a shutdown request) even when datagrams arrive faster
+/// than they are answered.
+const MAX_BATCHES_PER_CALL: usize = 16;
+
 const HTTP_RESPONSE: &str = "HTTP/1.1 200 OK\nContent-Length: 0\nConnection: close\n\n";
 
 /// The main Roughenough server instance.
@@ -64,6 +69,8 @@ pub struct Server {
     buf: [u8; 65_536],
     thread_name: String,
     srv_value: Vec<u8>,
+    /// The socket may still hold unread datagrams from a previous call (see MAX_BATCHES_PER_CALL)
+    socket_backlog: bool,
 
     stats_pub_freq: Duration,
     stats_pub_timer: Timer<()>,
@@ -150,6 +157,7 @@ impl Server {
             buf: [0u8; 65_536],
             thread_name,
             srv_value,
+            socket_backlog: false,
             stats_pub_freq: stats_freq,
             stats_pub_timer: timer,
             stats_recorder: stats,
@@ -194,30 +202,56 @@ impl Server {
     /// called repeatedly in a loop to process requests.
     ///
     pub fn process_events(&mut self, events: &mut Events) {
+        // The socket is registered edge-triggered: unread datagrams left over from the previous
+        // call do not raise a new event, so do not block in poll() while there is a backlog.
+        let poll_duration = if self.socket_backlog {
+            Some(Duration::from_millis(0))
+        } else {
+            self.poll_duration
+        };
+
         self.poll
-            .poll(events, self.poll_duration)
+            .poll(events, poll_duration)
             .expect("server event poll failed; cannot recover");
+
+        let mut socket_serviced = false;
 
         for msg in events.iter() {
             match msg.token() {
-                EVT_MESSAGE => loop {
-                    self.responder_ietf.reset();
-                    self.responder_classic.reset();
-
-                    let socket_now_empty = self.collect_requests();
-
-                    self.responder_ietf.send_responses(&mut self.socket, &mut self.stats_recorder);
-                    self.responder_classic.send_responses(&mut self.socket, &mut self.stats_recorder);
-
-                    if socket_now_empty {
-                        break;
-                    }
-                },
+                EVT_MESSAGE => {
+                    self.service_socket();
+                    socket_serviced = true;
+                }
                 EVT_HEALTH_CHECK => self.handle_health_check(),
                 EVT_STATUS_UPDATE => self.send_client_stats(),
                 _ => unreachable!(),
             }
         }
+
+        if self.socket_backlog && !socket_serviced {
+            self.service_socket();
+        }
+    }
+
+    /// Answer queued requests batch by batch until the socket is empty or MAX_BATCHES_PER_CALL
+    /// batches have been processed; in the latter case `socket_backlog` is set.
+    fn service_socket(&mut self) {
+        for _ in 0..MAX_BATCHES_PER_CALL {
+            self.responder_ietf.reset();
+            self.responder_classic.reset();
+
+            let socket_now_empty = self.collect_requests();
+
+            self.responder_ietf.send_responses(&mut self.socket, &mut self.stats_recorder);
+            self.responder_classic.send_responses(&mut self.socket, &mut self.stats_recorder);
+
+            if socket_now_empty {
+                self.socket_backlog = false;
+                return;
+            }
+        }
+
+        self.socket_backlog = true;
     }
 
     // Read and process client requests from socket until socket is empty or 'batch_size' number
